@@ -470,6 +470,9 @@ func Value(t *rapid.T, ts spec.TypeSpec, o ValueOpts) spec.ValueSpec {
 			if o.Big && !o.NoHuge && cheapElem(*ts.Elem) && Uniform(t, "hugeslice", 120) == 0 {
 				// more items than fit a 16-bit count, a few drawn ones in turn
 				v.Rep = []int{65535, 65536, 65537, 70001, 131073}[Uniform(t, "hugeLen", 5)]
+			} else if o.Big && !o.NoHuge && cheapElem(*ts.Elem) && Uniform(t, "roundslice", 60) == 0 {
+				// lengths a writer might chunk by: powers of two and their multiples, on the dot
+				v.Rep = []int{256, 1024, 4096, 8192, 12288, 16384, 32768, 4095, 4097}[Uniform(t, "roundLen", 9)]
 			}
 		}
 	case "map":
